@@ -199,6 +199,30 @@ func init() {
 		return Val{T: i.Type(), C: []string{n, errV.C[0], errV.C[1]}}
 	})
 
+	// ------------------------------------------------------------------ sort
+	reg("sort.Ints", "sorts in place: afterwards non-decreasing (pairwise) and a permutation of the old contents (bijection on the index range); nothing else changes", func(x *Exec, fr *Frame, i *ssa.Call, fn *ssa.Function, args []Val) Val {
+		st := fr.curSt
+		a := args[0]
+		name := "E$int$0"
+		x.checkFrameWrite(fr, name, a.base(), a.off(), "sort.Ints permutes its argument")
+		oldS, newS := x.havocComp(st, name, elemSort(SInt))
+		x.recordStore(name, a.base())
+		x.nfresh++
+		P, Q := fmt.Sprintf("sortP!%d", x.nfresh), fmt.Sprintf("sortQ!%d", x.nfresh)
+		x.emit(fmt.Sprintf("(declare-fun %s (Int) Int)", P))
+		x.emit(fmt.Sprintf("(declare-fun %s (Int) Int)", Q))
+		lo, hi := a.off(), add(a.off(), a.slen())
+		x.emit(sx("assert", fmt.Sprintf("(forall ((r Int)) (! (=> (not (= r %s)) (= (select %s r) (select %s r))) :pattern ((select %s r))))", a.base(), newS, oldS, newS)))
+		x.emit(sx("assert", fmt.Sprintf("(forall ((i Int)) (! (=> (not (and (<= %s i) (< i %s))) (= (select (select %s %s) i) (select (select %s %s) i))) :pattern ((select (select %s %s) i))))",
+			lo, hi, newS, a.base(), oldS, a.base(), newS, a.base())))
+		x.emit(sx("assert", fmt.Sprintf("(forall ((i Int) (j Int)) (! (=> (and (<= %s i) (< i j) (< j %s)) (<= (select (select %s %s) i) (select (select %s %s) j))) :pattern ((select (select %s %s) i) (select (select %s %s) j))))",
+			lo, hi, newS, a.base(), newS, a.base(), newS, a.base(), newS, a.base())))
+		x.emit(sx("assert", fmt.Sprintf("(forall ((i Int)) (! (=> (and (<= %s i) (< i %s)) (and (<= %s (%s i)) (< (%s i) %s) (= (select (select %s %s) i) (select (select %s %s) (%s i))) (= (%s (%s i)) i))) :pattern ((select (select %s %s) i))))",
+			lo, hi, lo, P, P, hi, newS, a.base(), oldS, a.base(), P, Q, P, newS, a.base())))
+		x.emit(sx("assert", fmt.Sprintf("(forall ((j Int)) (! (=> (and (<= %s j) (< j %s)) (and (<= %s (%s j)) (< (%s j) %s) (= (select (select %s %s) (%s j)) (select (select %s %s) j)) (= (%s (%s j)) j))) :pattern ((select (select %s %s) j))))",
+			lo, hi, lo, Q, Q, hi, newS, a.base(), Q, oldS, a.base(), P, Q, oldS, a.base())))
+		return Val{}
+	})
 	// ------------------------------------------------------------------ encoding/binary, math
 	le := func(nbytes int) intrinsic {
 		return func(x *Exec, fr *Frame, i *ssa.Call, fn *ssa.Function, args []Val) Val {
